@@ -3,7 +3,8 @@
    after pass, the decisions of every pass.  Built from the joint encoder / decoder simulation
    of the mq area (MqProofsRt2: DS, ECa, joint_decode_list, DS_init, EC_flush); the only new
    ingredient is that resetting the contexts on both sides preserves the simulation. *)
-From V Require Import Common.Base MQ.MqModel MQ.MqProofs MQ.MqProofsDec MQ.MqProofsRt MQ.MqProofsRt2.
+From V Require Import Common.Base MQ.MqModel MQ.MqProofs MQ.MqProofsDec MQ.MqProofsRt MQ.MqProofsRt2 MQ.MqProofsTerm.
+Require V.MQ.MqProofsSeg.
 From V Require Import T1.T1Store T1.T1Ctx T1.T1Model T1.T1Bytes.
 
 (* ResetContexts + the three SetContextState calls, on either side *)
@@ -279,4 +280,67 @@ Proof.
   destruct (DS_init 0 SS H1 H2 H3 cx HE0) as (dd & Edd & HDS0).
   destruct (joint_decode_list 0 SS H1 H2 H3 l _ dd 3%nat Hinv0 HDS0 HE Hl) as (d' & k' & E1 & HDS1).
   exists dd, d'. split; [exact Edd|]. split; [exact E1|]. apply HDS1.
+Qed.
+
+(* ---------- the same codeword closed by ErtermEnc (PTERM on the last pass) ---------- *)
+Lemma reset_step_fresh : forall (reset : bool) e, MqProofsSeg.fresh_buf e -> MqProofsSeg.fresh_buf (if reset then r_e e else e).
+Proof. intros [|] e H; [|exact H]. rewrite r_e_cxset. exact H. Qed.
+
+Lemma enc_mq_passes_fresh : forall reset ps e, MqProofsSeg.fresh_buf e -> MqProofsSeg.fresh_buf (enc_mq_passes reset e ps).
+Proof.
+  intros reset ps. induction ps as [|p r IH]; intros e H; cbn [enc_mq_passes]; [exact H|].
+  apply IH. apply reset_step_fresh. apply MqProofsSeg.encode_list_fresh. exact H.
+Qed.
+
+Theorem mq_passes_future_erterm : forall (reset : bool) (cx : list Z) (p : list (Z * Z)) (r : list (list (Z * Z))),
+  Forall cx_ok cx -> Forall (decision_ok (zlen cx)) p -> Forall (Forall (decision_ok (zlen cx))) r ->
+  let en := enc_mq_passes reset (enc_new_cx cx) (p :: r) in
+  let bytes := enc_get_buffer (enc_erterm en) in
+  exists dd, dec_new_cx bytes cx = Ok dd /\ dec_future reset dd p r.
+Proof.
+  intros reset cx p r Hcx Hp Hr en bytes.
+  assert (Hinv0 : enc_inv (enc_new_cx cx)) by (apply enc_new_inv; exact Hcx).
+  assert (Hinv : enc_inv en) by (apply enc_mq_passes_inv; exact Hinv0).
+  destruct (MqProofsSeg.erterm_state_spec en Hinv) as (e1 & last1 & stale & Ee1 & Ht1 & Hpost1 & Hbuf1 & Epre & _).
+  destruct (buf_ok_head _ _ Hbuf1) as [Hlb Hlm].
+  assert (HP : exists h P', e_pre (enc_erterm en) = h :: P' /\ h <> 255 /\ buf_ok (h :: P')).
+  { rewrite Epre. destruct (Z.eqb_spec last1 255) as [E|E].
+    - destruct (e_pre e1) as [|x t] eqn:Ex.
+      + exfalso.
+        assert (E1 : e1 = en).
+        { rewrite Ee1. apply MqProofsSeg.erterm_loop_pre_nil. rewrite <- Ee1. exact Ex. }
+        assert (Hf : MqProofsSeg.fresh_buf en).
+        { apply enc_mq_passes_fresh. unfold MqProofsSeg.fresh_buf, enc_new_cx. reflexivity. }
+        rewrite E1 in Ex, Hpost1. rewrite (Hf Ex) in Hpost1. inversion Hpost1. lia.
+      + exists x, t. split; [reflexivity|]. split; [|eapply buf_ok_tail; exact Hbuf1].
+        intros Hx. cbn [hd] in Hlm. specialize (Hlm Hx). lia.
+    - exists last1, (e_pre e1). auto. }
+  destruct HP as (h & P' & EP & Hh & [Hb Hn]).
+  remember (rev (h :: P')) as B eqn:EB.
+  assert (HlenB : length B = S (length P')) by (rewrite EB, rev_length; reflexivity).
+  destruct B as [|d0 SS]; [simpl in HlenB; lia|].
+  assert (Hbuf : bytes = SS).
+  { unfold bytes, enc_get_buffer, enc_bp, zlen. rewrite EP.
+    destruct (Z.ltb_spec (Z.of_nat (length (h :: P'))) 1) as [Hx|_]; [simpl length in Hx; lia|].
+    rewrite <- EB. reflexivity. }
+  assert (H1 : forall i, 0 <= nth i (d0 :: SS) 255 <= 255).
+  { intros i. destruct (lt_dec i (length (d0 :: SS))) as [Hi|Hi].
+    - assert (HF : Forall is_byteP (d0 :: SS)) by (rewrite EB; apply Forall_rev; exact Hb).
+      rewrite Forall_forall in HF. specialize (HF (nth i (d0 :: SS) 255) (nth_In _ _ Hi)).
+      unfold is_byteP in HF. lia.
+    - rewrite nth_overflow by lia. lia. }
+  assert (H2 : forall i, (S i < length (d0 :: SS))%nat ->
+                 nth i (d0 :: SS) 255 = 255 -> nth (S i) (d0 :: SS) 255 <= 143).
+  { intros i Hi Hx. rewrite EB in *. apply nomark_rev_index; [exact Hn | rewrite rev_length in Hi; exact Hi | exact Hx]. }
+  assert (H3 : forall i, S i = length (d0 :: SS) -> nth i (d0 :: SS) 255 <> 255).
+  { intros i Hi Hx. rewrite EB in Hx, Hi. rewrite rev_length in Hi.
+    rewrite rev_nth in Hx by lia. replace (length (h :: P') - S i)%nat with O in Hx by lia.
+    simpl in Hx. contradiction. }
+  assert (HE : ECa d0 SS en).
+  { apply (MqProofsSeg.EC_erterm d0 SS H1 H2 H3 en Hinv). unfold D. rewrite EP, <- EB. reflexivity. }
+  rewrite Hbuf.
+  pose proof (ECa_passes_back d0 SS H1 H2 H3 reset (p :: r) _ Hinv0 HE) as HE0.
+  destruct (DS_init d0 SS H1 H2 H3 cx HE0) as (dd & Edd & HDS0).
+  exists dd. split; [exact Edd|].
+  apply (joint_passes d0 SS H1 H2 H3 reset r p (enc_new_cx cx) dd 3%nat (zlen cx)); auto.
 Qed.
